@@ -168,73 +168,78 @@ def run(ctx):
     ctx.ob('R1.4', b.n, 'the insert loop walks output_utxo_entries', len(srcs) >= 1, '', where(b, hc.line))
     ctx.ob('R1.4', b.n, 'the insert loop runs for every transaction (no path around it back to the loop head)', oh is not None and all(b.dominates(oh, t) for t in an.heads[th]), '', where(b, hc.line))
 
+  _lost_sats(ctx, 'R1.5', b, an, th, lost)
+
+
+def _lost_sats(ctx, rid, b, an, th, lost):
+  F = ctx.facts
   # ---- R1.5 lost sats
   loads = [c for c in b.calls if c.is_(LOAD_RANGE) and c.bb not in an.loop[th]]
-  if not ctx.anchor('R1.5', 'SatRange::load over the lost ranges', len(loads) == 1, b.n):
+  if not ctx.anchor(rid, 'SatRange::load over the lost ranges', len(loads) == 1, b.n):
     return
   lc = loads[0]
   lh = smallest_loop(an, lc.bb)
-  if not ctx.anchor('R1.5', 'lost-range loop', lh is not None, b.n):
+  if not ctx.anchor(rid, 'lost-range loop', lh is not None, b.n):
     return
   L = ('call', lc.bb)
   start, end = Aff.sym(('f', L, (_f(0),))), Aff.sym(('f', L, (_f(1),)))
   ch = [c for c in b.calls if c.is_('re:chunks_exact$') and b.dominates(c.bb, lh)]
-  ctx.ob('R1.5', b.n, f'the loop walks {lost}.chunks_exact(11)', any(lost in _names(b, c.args[0]) | {x.name for x in deep_origins(b, c.args[0], all_args=True)} and b.const_of(c.args[1]) == 11 for c in ch), '', where(b, lc.line))
+  ctx.ob(rid, b.n, f'the loop walks {lost}.chunks_exact(11)', any(lost in _names(b, c.args[0]) | {x.name for x in deep_origins(b, c.args[0], all_args=True)} and b.const_of(c.args[1]) == 11 for c in ch), '', where(b, lc.line))
   ks = set()
   for s in back_edge_states(an, lh):
     for k, v in s.m.items():
       if v == Aff.sym(('phi', lh, k)) + end - start:
         ks.add(k)
-  if not ctx.anchor('R1.5', 'running lost_sats (lost_sats += end - start)', len(ks) == 1, b.n):
+  if not ctx.anchor(rid, 'running lost_sats (lost_sats += end - start)', len(ks) == 1, b.n):
     return
   lk = next(iter(ks))
   lost_phi = Aff.sym(('phi', lh, lk))
   bes = back_edge_states(an, lh)
-  ctx.ob('R1.5', b.n, 'every lost range adds exactly end - start', bool(bes) and all(s.val(lk) == lost_phi + end - start for s in bes), f'{[s.val(lk) for s in bes][:3]}', where(b, lc.line))
+  ctx.ob(rid, b.n, 'every lost range adds exactly end - start', bool(bes) and all(s.val(lk) == lost_phi + end - start for s in bes), f'{[s.val(lk) for s in bes][:3]}', where(b, lc.line))
   ees = entry_edge_states(an, lh)
   src = set()
   for s in ees:
     src |= {x for x in s.val(lk).syms()}
   st = [c for c in b.calls if c.is_('re:redb::.*Table.*::get$') and c.bb not in an.loop[th]]
-  ctx.ob('R1.5', b.n, 'the sum starts from the stored LostSats statistic (not from zero)', bool(ees) and all(not s.val(lk).is_const() for s in ees), f'{[s.val(lk) for s in ees][:2]}', where(b, lc.line))
+  ctx.ob(rid, b.n, 'the sum starts from the stored LostSats statistic (not from zero)', bool(ees) and all(not s.val(lk).is_const() for s in ees), f'{[s.val(lk) for s in ees][:2]}', where(b, lc.line))
   sps = [x for x in agg_sites(b, r'ordinals::sat_point::SatPoint$|ordinals::SatPoint$') if x[0] in an.loop[lh]]
-  if ctx.anchor('R1.5', 'SatPoint literal of the lost-sat row', len(sps) == 1, b.n):
+  if ctx.anchor(rid, 'SatPoint literal of the lost-sat row', len(sps) == 1, b.n):
     bb, i, stm = sps[0]
     fs = stm['rv'].get('fields') or []
     dk = pkey(stm['p'])
     sts2 = state_after_stmt(an, bb, i)
-    ctx.ob('R1.5', b.n, 'row offset == lost_sats before this range', bool(sts2) and all(s.val(_sub(dk, _f(fs.index('offset')))) == lost_phi for s in sts2), f"{[s.val(_sub(dk, _f(fs.index('offset')))) for s in sts2][:2]}", where(b, stm['l']))
+    ctx.ob(rid, b.n, 'row offset == lost_sats before this range', bool(sts2) and all(s.val(_sub(dk, _f(fs.index('offset')))) == lost_phi for s in sts2), f"{[s.val(_sub(dk, _f(fs.index('offset')))) for s in sts2][:2]}", where(b, stm['l']))
     oo = deep_origins(b, stm['rv']['ops'][fs.index('outpoint')], all_args=True)
-    ctx.ob('R1.5', b.n, 'row outpoint is OutPoint::null()', any(o.kind == 'call' and o.call.is_('bitcoin::OutPoint::null', 're:OutPoint::null$') for o in oo), f'{[repr(o) for o in oo[:3]]}', where(b, stm['l']))
+    ctx.ob(rid, b.n, 'row outpoint is OutPoint::null()', any(o.kind == 'call' and o.call.is_('bitcoin::OutPoint::null', 're:OutPoint::null$') for o in oo), f'{[repr(o) for o in oo[:3]]}', where(b, stm['l']))
   rins = [c for c in b.calls if c.is_('re:redb::Table.*::insert$') and c.bb in an.loop[lh]]
-  if ctx.anchor('R1.5', 'SAT_TO_SATPOINT insert in the lost-range loop', len(rins) == 1, b.n):
+  if ctx.anchor(rid, 'SAT_TO_SATPOINT insert in the lost-range loop', len(rins) == 1, b.n):
     rc = rins[0]
     okk = False
     for s in an.at_term(rc.bb):
       srcl = rc.args[1].get('c') or rc.args[1].get('m')
       tg = [tk for tk, m in s.ref.get(srcl['l'], ())]
       okk = len(tg) == 1 and s.val(tg[0]) == start
-    ctx.ob('R1.5', b.n, 'row key is the range start', okk, '', where(b, rc.line))
+    ctx.ob(rid, b.n, 'row key is the range start', okk, '', where(b, rc.line))
     gs = [g for g in guards_of(b, rc.bb) if g.slice().has_call('ordinals::sat::Sat::common')]
-    ctx.ob('R1.5', b.n, 'row written under !common', len(gs) == 1, '', where(b, rc.line))
+    ctx.ob(rid, b.n, 'row written under !common', len(gs) == 1, '', where(b, rc.line))
   # merge into the null-outpoint entry
   mg = [c for c in b.calls if c.is_('ord::index::utxo_entry::UtxoEntryBuf::merged')]
   ps = [c for c in b.calls if c.is_('ord::index::utxo_entry::UtxoEntryBuf::push_sat_ranges') and lost in _names(b, c.args[1]) | {x.name for x in deep_origins(b, c.args[1], all_args=True)}]
-  ctx.ob('R1.5', b.n, f'{lost} is pushed into a new entry', len(ps) == 1, f'{len(ps)} sites', where(b, lc.line))
-  if ctx.anchor('R1.5', 'UtxoEntryBuf::merged(existing null entry, new entry)', len(mg) == 1, b.n):
+  ctx.ob(rid, b.n, f'{lost} is pushed into a new entry', len(ps) == 1, f'{len(ps)} sites', where(b, lc.line))
+  if ctx.anchor(rid, 'UtxoEntryBuf::merged(existing null entry, new entry)', len(mg) == 1, b.n):
     m = mg[0]
     ent = [c for c in b.calls if c.is_('re:HashMap.*::entry$') and 'utxo_cache' in _names(b, c.args[0])]
     nullk = any(o.kind == 'call' and o.call.is_('re:OutPoint::null$') for c in ent for o in deep_origins(b, c.args[1], all_args=True))
-    ctx.ob('R1.5', b.n, 'the merged entry is utxo_cache[OutPoint::null()]', len(ent) == 1 and nullk, '', where(b, m.line))
+    ctx.ob(rid, b.n, 'the merged entry is utxo_cache[OutPoint::null()]', len(ent) == 1 and nullk, '', where(b, m.line))
     a0 = {x.call.name for x in deep_origins(b, m.args[0], all_args=True) if x.kind == 'call'}
     a1n = _names(b, m.args[1]) | {x.name for x in deep_origins(b, m.args[1], all_args=True) if x.name}
-    ctx.ob('R1.5', b.n, 'merged(existing, new): existing first', any(n and n.endswith('Entry::or_insert') for n in a0), f'{sorted(short(x) for x in a0 if x)}', where(b, m.line))
+    ctx.ob(rid, b.n, 'merged(existing, new): existing first', any(n and n.endswith('Entry::or_insert') for n in a0), f'{sorted(short(x) for x in a0 if x)}', where(b, m.line))
     newn = _names(b, ps[0].args[0]) if ps else set()
-    ctx.ob('R1.5', b.n, 'merged(existing, new): the entry holding the new lost ranges second', bool(newn) and newn <= a1n, f'{newn} vs {a1n}', where(b, m.line))
+    ctx.ob(rid, b.n, 'merged(existing, new): the entry holding the new lost ranges second', bool(newn) and newn <= a1n, f'{newn} vs {a1n}', where(b, m.line))
   # statistic
   sins = [c for c in b.calls if c.is_('re:redb::Table.*::insert$') and c.bb not in an.loop[th] and c.bb not in an.loop[lh] and 'statistic_to_count' in _names(b, c.args[0])]
   lsi = [c for c in sins if any(o.kind == 'call' and 'Statistic::key' in (o.call.name or '') for o in deep_origins(b, c.args[1], all_args=True)) and _is_lost_key(b, c)]
-  if ctx.anchor('R1.5', 'statistic_to_count.insert(LostSats)', len(lsi) == 1, b.n):
+  if ctx.anchor(rid, 'statistic_to_count.insert(LostSats)', len(lsi) == 1, b.n):
     c = lsi[0]
     on_vals, off_vals = set(), set()
     allowed = {lost_phi} | {s.val(lk) for s in ees}
@@ -244,8 +249,41 @@ def run(ctx):
       g = [x for x in s.guards if x[0] in ('Eq', 'Ne') and x[2] == Aff.const(0) and 'index_sats' in an.field_names(x[1])]
       if len(tg) == 1 and g:
         (on_vals if g[-1][0] == 'Ne' else off_vals).add(s.val(tg[0]))
-    ctx.ob('R1.5', b.n, 'LostSats is stored from the running sum when index_sats is on', bool(on_vals) and on_vals <= allowed, f'stored {on_vals}; running sum {allowed}', where(b, c.line))
-    ctx.ob('R1.5', b.n, 'LostSats is stored from the inscription updater\'s count otherwise', bool(off_vals) and all('lost_sats' in an.field_names(v) for v in off_vals), f'stored {off_vals}', where(b, c.line))
+    ctx.ob(rid, b.n, 'LostSats is stored from the running sum when index_sats is on', bool(on_vals) and on_vals <= allowed, f'stored {on_vals}; running sum {allowed}', where(b, c.line))
+    ctx.ob(rid, b.n, 'LostSats is stored from the inscription updater\'s count otherwise', bool(off_vals) and all('lost_sats' in an.field_names(v) for v in off_vals), f'stored {off_vals}', where(b, c.line))
+
+
+
+def lost_sats_for(ctx, rid):
+  """the lost-sats bookkeeping obligations under another rule id (C02 states them as part of 'every sat is in exactly one place')"""
+  F = ctx.facts
+  b = ctx.body(rid, IUE)
+  if b is None:
+    return
+  an = Analysis(b)
+  its = [c for c in b.calls if c.is_(ITS)]
+  if not ctx.anchor(rid, 'call to index_transaction_sats', len(its) == 1, b.n):
+    return
+  ic = its[0]
+  th = smallest_loop(an, ic.bb)
+  ib = F.body(ITS)
+  pn = [ib.local_name(i) for i in range(1, ib.argc + 1)] if ib is not None else []
+  if not ctx.anchor(rid, 'transaction loop and leftover parameter', th is not None and 'leftover_sat_ranges' in pn, b.n):
+    return
+  a_left = ic.args[pn.index('leftover_sat_ranges')]
+  N = ('call', th)
+  is_off = lambda a: a.single() is not None and a.single()[0] == 'f' and a.single()[1] == N and a.single()[2][-2:] == (_f(0), _f(0))
+  lost = set()
+  for s in an.at_term(ic.bb):
+    g = [x for x in s.guards if x[0] == 'Eq' and ((is_off(x[1]) and x[2] == Aff.const(0)) or (is_off(x[2]) and x[1] == Aff.const(0)))]
+    if g:
+      src = a_left.get('c') or a_left.get('m')
+      tg = [tk for tk, m in s.ref.get(src['l'], ()) if m]
+      if len(tg) == 1 and not tg[0][1]:
+        lost.add(b.local_name(tg[0][0]))
+  if not ctx.anchor(rid, 'vector receiving the coinbase leftovers', len(lost) == 1 and None not in lost, b.n):
+    return
+  _lost_sats(ctx, rid, b, an, th, next(iter(lost)))
 
 
 def _is_lost_key(b, c):
